@@ -351,6 +351,15 @@ def run_calls(sh, ctx):
 				os.unlink(path)
 			st, _ = forked_write(p, path, n, when, how)
 			w = dict(payload=p, call=n, of=total, when=when, death={'sigint': 'SIGINT (KeyboardInterrupt unwinds, then the process dies)', 'oserror': 'the storage call raises OSError, unhandled'}[how])
+			if st == 'completed' and how == 'oserror':
+				# the storage call failed (the injected OSError was raised inside it) and the writer carried on to the end: the error was
+				# swallowed. What is on disk must then still not load as a different collection
+				size = path.stat().st_size if path.exists() else -1
+				outcome = forked_load(p, path) if size >= 0 else 'refused:FileNotFoundError'
+				ctx.count('storage_errors_not_propagated')
+				if outcome.startswith(('loaded-different', 'accepted-then-read-error')):
+					ctx.violation('storage-error-swallowed-and-file-loads-as-different-collection', f'{p["name"]}: storage call {n}/{total} raised OSError, dump_signatures returned normally and the file {outcome}', dict(w, file_size_left=size))
+				continue
 			if st != 'killed':
 				ctx.inconc(f'{sh["name"]}: crash point {n}/{how} not reached: {st}')
 				continue
